@@ -435,6 +435,57 @@ def foreign_naming_pairs(res, ctx, rng):
             res.count('foreign_naming_pair_histories')
 
 
+def reassigned_tables(res, ctx, rng):
+    """A long-lived parser whose code table is RE-ASSIGNED (parser.trace_codes = another mapping) or edited in place while it
+    lives: a kernel trace-string / data name and an ordinary call trade ids, and the following records use the new
+    numbering.  From then on the parser pairs and decodes exactly like a parser built with that table from the start -
+    both the pairing domain of a record and its decoder follow the table as it is."""
+    inv = H.inventory()
+    bundled = ev.bundled_codes()
+    for it in range(ctx.pick(60, 1500)):
+        t_name = rng.choice(sorted(inv['trace_domain']))
+        o_name = rng.choice(inv['bsd'])
+        it_, io_ = ev.eid(t_name), ev.eid(o_name)
+        swapped = dict(bundled)
+        swapped[it_], swapped[io_] = bundled[io_], bundled[it_]
+        pi = {it_: io_, io_: it_}
+        parser = ev.new_parser(codes=dict(bundled))
+        # some history under the bundled numbering first (windows left open in both domains)
+        warm = [mk_event(rng, 900 + 7 * i, c, q, 5) for i, (c, q) in enumerate(((o_name, 1), (t_name, 0), ('BSC_getpid', 1)))]
+        how = rng.choice(('reassign', 'in place'))
+        try:
+            for e in warm:
+                parser.feed(e)
+            if how == 'reassign':
+                parser.trace_codes = swapped
+            else:
+                parser.trace_codes[it_], parser.trace_codes[io_] = bundled[io_], bundled[it_]
+            fresh = ev.new_parser(codes=dict(swapped))
+            # (the windows the warm-up left open were opened under the old numbering: both parsers start the history
+            # with none open)
+            parser.on_going_events.clear()
+            parser.on_going_traces.clear()
+            history = []
+            for i in range(rng.randrange(4, 14)):
+                code = rng.choice((o_name, o_name, t_name, t_name, 'BSC_getpid', 'MACH_SCHED'))
+                e = mk_event(rng, 2000 + 7 * i, code, rng.choice((0, 1, 1, 2, 2, 3)), rng.choice((5, 5, 6)))
+                history.append(ev.mk(e.timestamp, pi.get(e.eventid, e.eventid), e.func_qualifier, e.data, e.tid))
+            got = [(k, None if t is None else (str(t), len(t.ktraces))) for k, t in enumerate(parser.feed(e) for e in history)]
+            want = [(k, None if t is None else (str(t), len(t.ktraces))) for k, t in enumerate(fresh.feed(e) for e in history)]
+        except Exception as x:
+            res.violation(f'c04-raises-{core.exc_name(x)}', f'table {how} on a live parser ({t_name} <-> {o_name}): {x!r} at '
+                          f'{core.short_tb(x)}', {'trace_name': t_name, 'call': o_name})
+            return
+        res.count('histories_after_a_table_change')
+        res.case(('table-change', t_name, o_name, how, it))
+        if got != want:
+            k = next(i for i, (a, b) in enumerate(zip(got, want)) if a != b)
+            res.violation('c04-pairing-follows-an-earlier-table', f'{t_name} and {o_name} trade ids, table changed by {how} on a '
+                          f'live parser: at record {k} it delivers {got[k][1]}, a parser built with that table delivers '
+                          f'{want[k][1]}', {'trace_name': t_name, 'call': o_name, 'how': how})
+            return
+
+
 def front_end_sequences(res, ctx, rng):
     """One front-end object asked for the traces of several dumps in turn: every dump is paired on its own.  The earlier
     dump ends with operations still open (both pairing domains), the later one begins with the matching ENDs."""
@@ -513,6 +564,7 @@ def run(ctx):
     long_windows(res, ctx, rng)
     huge_windows(res, ctx, rng)
     foreign_naming_pairs(res, ctx, rng)
+    reassigned_tables(res, ctx, rng)
     front_end_sequences(res, ctx, rng)
     res.count('invariant_evaluations', InvariantLog.evaluations)
     res.notes['invariant_backend'] = 'icontract.invariant on TracesParser' if monitors.HAVE_ICONTRACT else 'absent'
@@ -529,7 +581,7 @@ def run(ctx):
                         'words are in-domain so that the real decoders are total on the windows they receive']
     for cls in ('class_unmatched_end', 'class_reopened_start', 'class_nested', 'class_crossing',
                 'class_same_code_two_threads', 'class_both_domains_open', 'class_qualifier_all', 'windows_checked',
-                'singles_checked', 'long_window_histories', 'huge_windows', 'foreign_naming_pair_histories'):
+                'singles_checked', 'long_window_histories', 'huge_windows', 'foreign_naming_pair_histories', 'histories_after_a_table_change'):
         res.require(cls)
     if monitors.HAVE_ICONTRACT:
         res.require('invariant_evaluations')
